@@ -9,7 +9,6 @@ CONSTANTS
   TokSel = "@TOKSEL@"
   PruneToks = @PRUNE@
   EmitEvery = @EMITEVERY@
-  ArithInBodyByValue = TRUE
   LowerNames <- LowerNamesMC
 INIT Init
 NEXT Next
